@@ -350,8 +350,11 @@ impl From<Tag> for LdapResultExt {
             .expect("result code");
         let rc = match parse_uint(rc_octets.as_slice()) {
             // A code which doesn't fit the field (or the integer parser, which is exact up
-            // to eight octets) must not turn into another code, least of all success.
-            Ok((_, rc)) if rc_octets.len() <= 8 => u32::try_from(rc).unwrap_or(u32::MAX),
+            // to eight octets) must not turn into another code, least of all success; the
+            // same goes for an element without content octets, which holds no code at all.
+            Ok((_, rc)) if !rc_octets.is_empty() && rc_octets.len() <= 8 => {
+                u32::try_from(rc).unwrap_or(u32::MAX)
+            }
             Ok(_) => u32::MAX,
             _ => panic!("failed to parse result code"),
         };
